@@ -494,7 +494,7 @@ impl<'de> Deserialize<'de> for Detection {
 /// ```
 #[derive(Clone, Debug, Deserialize, Serialize)]
 pub struct Rule {
-    #[serde(default)]
+    #[serde(default, deserialize_with = "flag")]
     optimised: bool,
 
     pub detection: Detection,
@@ -502,6 +502,26 @@ pub struct Rule {
     pub true_positives: Vec<Yaml>,
     #[serde(deserialize_with = "examples")]
     pub true_negatives: Vec<Yaml>,
+}
+
+/// The flag is read through a YAML value, so that a rule loaded from text and from a YAML value
+/// agree on scalars that carry an explicit tag (`!!bool 'true'`, `!!str true`).
+fn flag<'de, D>(deserializer: D) -> Result<bool, D::Error>
+where
+    D: de::Deserializer<'de>,
+{
+    match Yaml::deserialize(deserializer)? {
+        Yaml::Bool(b) => Ok(b),
+        Yaml::String(s) => Err(de::Error::invalid_type(
+            de::Unexpected::Str(&s),
+            &"a boolean",
+        )),
+        Yaml::Null => Err(de::Error::invalid_type(de::Unexpected::Unit, &"a boolean")),
+        _ => Err(de::Error::invalid_type(
+            de::Unexpected::Other("value"),
+            &"a boolean",
+        )),
+    }
 }
 
 /// An example list written as `~` / `null` is an empty list, whether the rule is loaded from text
